@@ -85,6 +85,7 @@ def run(tier, seed):
                                       {"class": cname, "law": name, "lhs": lhs, "rhs": rhs, "callable": use_callable,
                                        "replay": base.snippet(cname, lhs)})
     ci.CALLABLE_FUNCTORS = False
+    bubble_stream(rep, random.Random(seed + 404), 150 if tier == "quick" else 2500)
     base.settle(rep, "C04", proof_ok, "C04")
     return rep.finish(
         rule="classes monoidal and rigid, object/box maps given as dicts and as callables: random functors "
@@ -95,6 +96,87 @@ def run(tier, seed):
         assumptions=["laws are decided by the implementation's own == on both sides; each side is also compared "
                      "with the model", "F19 (dagger law on composite swaps) is a listed known finding"],
         checker_cmd="make -C coq Props/C04.vo  (coqc 8.16.1, Print Assumptions parsed)")
+
+
+def bubble_stream(rep, rng, count):
+    """Oracle-only stream on the real objects: diagrams containing bubbles (with the default and
+    with their own outer types, empty ones included), functors whose object map may erase wires.
+    The image of a bubble is the bubble of the image, with the images of the outer types; dom / cod
+    of every image are the images of dom / cod; F(pre >> bubble >> post) is the composite of the
+    images."""
+    from discopy import monoidal, rigid
+    bad = 0
+
+    def fail(what, payload):
+        nonlocal bad
+        bad += 1
+        rep.count("oracle:bubble:FAIL")
+        if bad <= 4:
+            rep.violation(what, payload)
+    for k in range(count):
+        mod = monoidal if k % 2 == 0 else rigid
+        Ty, Box, Functor = mod.Ty, mod.Box, mod.Functor
+        names = ["x", "y", "z", "w"]
+        img = {n: Ty(*[rng.choice(["a", "b"]) for _ in range(rng.choice([0, 0, 1, 1, 2]))]) for n in names}
+        if k < 8:
+            img["x"], img["y"] = Ty(), Ty("a", "b")          # an erased outer wire, a wide inside wire
+
+        def ty(lo, hi):
+            return Ty(*[rng.choice(names) for _ in range(rng.randint(lo, hi))])
+        ob = {Ty(n): t for n, t in img.items()}
+        types = Functor(ob, {})
+        ar = {}
+
+        def box(name, dom, cod):
+            b = Box(name, dom, cod)
+            ar[b] = Box("F" + name, types(dom), types(cod))
+            return b
+        a, b_ = ty(0, 2), ty(0, 2)
+        inside = box("f", a, b_)
+        if rng.random() < 0.4:
+            c = ty(0, 2)
+            inside = inside >> box("g", b_, c)
+        kw = {}
+        r = rng.random()
+        if k < 8:
+            inside = box("f", Ty("y"), Ty("y"))
+            kw = {"dom": Ty("x"), "cod": Ty("x")}
+        elif r < 0.3:
+            kw = {}
+        elif r < 0.5:
+            kw = {"dom": Ty(), "cod": ty(0, 2)}
+        else:
+            kw = {"dom": ty(0, 2), "cod": ty(0, 2)}
+        rep.count("stream:bubbles")
+        try:
+            bub = inside.bubble(**kw)
+            want_dom = kw.get("dom", inside.dom)
+            want_cod = kw.get("cod", inside.cod)
+            if list(bub.dom.objects) != list(want_dom.objects) or list(bub.cod.objects) != list(want_cod.objects):
+                fail("bubble(dom=%r, cod=%r) has type %r -> %r" % (kw.get("dom"), kw.get("cod"), bub.dom, bub.cod),
+                     {"inside": repr(inside), "kw": repr(kw)})
+                continue
+            pre, post = box("p", ty(0, 1), bub.dom), box("q", bub.cod, ty(0, 1))
+            F = Functor(ob, ar)
+            whole = pre >> bub >> post
+            Fb, Fw = F(bub), F(whole)
+            why = None
+            if Fb.dom != F(bub.dom) or Fb.cod != F(bub.cod):
+                why = "F(bubble) : %r -> %r but F(dom) = %r, F(cod) = %r" % (Fb.dom, Fb.cod, F(bub.dom), F(bub.cod))
+            elif Fw.dom != F(whole.dom) or Fw.cod != F(whole.cod):
+                why = "dom / cod of the image of pre >> bubble >> post are not the images of dom / cod"
+            elif Fw != F(pre) >> Fb >> F(post):
+                why = "F(pre >> bubble >> post) != F(pre) >> F(bubble) >> F(post)"
+            elif Fb != F(inside).bubble(dom=F(bub.dom), cod=F(bub.cod)):
+                why = "F(bubble) is not the bubble of F(inside) on the images of the outer types"
+        except Exception as exc:   # noqa: all requests of this stream are well-typed
+            why = "raised %s: %s" % (type(exc).__name__, exc)
+        if why:
+            fail("functor on a diagram with a bubble: " + why,
+                 {"class": mod.__name__, "inside": repr(inside), "outer": repr(kw),
+                  "object map": repr({str(k_): str(v) for k_, v in ob.items()})})
+        else:
+            rep.count("oracle:bubble:pass")
 
 
 def oracle(ci, cls, name, lhs, rhs, extra, obs, ars, outcome, rng):
